@@ -33,9 +33,21 @@ class ForcedShuffle:
         np.random.shuffle = self.orig
 
 
+# every unit spelling typhon.geographical advertises, with the TRUE length of the unit in kilometres
+UNIT_KM = {"cm": 1e-5, "centimeter": 1e-5, "centimeters": 1e-5, "m": 1e-3, "meter": 1e-3, "meters": 1e-3,
+           "km": 1.0, "kilometer": 1.0, "kilometers": 1.0, "mi": 1.609344, "mile": 1.609344, "miles": 1.609344,
+           "yd": 0.9144e-3, "yds": 0.9144e-3, "yard": 0.9144e-3, "yards": 0.9144e-3,
+           "ft": 0.3048e-3, "foot": 0.3048e-3, "feet": 0.3048e-3}
+
+
 def radius_spellings(km):
-    return [km, float(km), "%r km" % km, "%r m" % (km * 1000.0), "%r miles" % (km / 1.609344),
-            "%r kilometers" % km, "%rkm" % km]
+    """The same radius written in every supported way (thresholds sit mid-gap, so rounding in the unit conversion is harmless)."""
+    out = [km, float(km), "%rkm" % km]
+    out += ["%r %s" % (km / f, u) for u, f in sorted(UNIT_KM.items())]
+    return out
+
+
+N_SPELLINGS = 3 + len(UNIT_KM)
 
 
 def run_query(B, Q, k, emb_name, metric, tree, leaf, perm, spelling, shuffle=True, return_distance=True):
@@ -105,13 +117,13 @@ def replay_case(col, item):
         # every permutation once, configuration rotating with it
         for n, perm in enumerate(perms):
             confs.append((list(EMB)[n % 3], ["minkowski", "haversine"][n % 2], ["Ball", "KD", None][n % 3] if n % 2 == 0 else "Ball",
-                          [1, 2, 40][n % 3], perm, n % 7))
+                          [1, 2, 40][n % 3], perm, (5 * n + 3 * len(B) + 7 * len(Q) + sum(B)) % N_SPELLINGS))
     else:
         for n, perm in enumerate(perms):
             for e in EMB:
                 for metric in ("minkowski", "haversine"):
                     for tree in (("Ball", "KD") if metric == "minkowski" else ("Ball",)):
-                        confs.append((e, metric, tree, [1, 2, 40][n % 3], perm, n % 7))
+                        confs.append((e, metric, tree, [1, 2, 40][n % 3], perm, (5 * n + len(confs)) % N_SPELLINGS))
     for k_s, exp in case["byk"].items():
         k = int(k_s)
         for emb_name, metric, tree, leaf, perm, sp in confs:
@@ -130,7 +142,22 @@ def replay_case(col, item):
             if got[2] == 0:
                 col.bump("shuffle_not_instrumented")
             col.count(1)
+            col.bump("spelling_%02d" % sp)
             check_result(col, case, k, exp, got, conf)
+        # the same query points repeated to several thousand (sizes that do not divide evenly into blocks of 1024 / 2048 / 4096)
+        for big in ((2501,) if (len(B) + len(Q) + k) % 2 else (4099,)):
+            reps = -(-big // len(Q))
+            Qb = (list(Q) * reps)[:big]
+            expb = [(a, j + 1, c) for j in range(big) for a, b, c in exp if b == (j % len(Q)) + 1]
+            conf = {"embedding": "tilted", "metric": "minkowski", "tree": "Ball", "leaf_size": 40, "perm": list(perms[-1]),
+                    "query_points_repeated_to": big}
+            try:
+                got = run_query(B, Qb, k, "tilted", "minkowski", "Ball", 40, perms[-1], 0)
+                col.count(1)
+                check_result(col, dict(case, Q="Q repeated to %d points" % big), k, expb, got, conf)
+            except Exception as ex:
+                col.violation("query-raises-" + type(ex).__name__, {"abstract": {"N": N, "B": B, "Q": Q, "k": k}, "concrete": conf,
+                                                                    "observed": repr(ex)[:200]})
         # whole-degree coordinates passed as INTEGER arrays (equator embedding: lat 0, lon multiples of 45)
         for metric in ("minkowski", "haversine"):
             if metric == "haversine" and k >= N // 2:
@@ -226,7 +253,7 @@ def run(ctx):
     ctx.rule = ("TLC enumerates build/query position sequences on a ring of 8 positions with the oracle pair set and "
                 "distance class for every radius class; each is replayed on GeoIndex for every permutation of the build "
                 "points (installed through numpy.random.shuffle), three great-circle embeddings (date line, poles, "
-                "tilted), both metrics, both trees, leaf sizes, seven spellings of r, shuffle off and "
+                "tilted), both metrics, both trees, leaf sizes, every supported spelling of r (19 units, bare numbers), shuffle off, queries of 2501 / 4099 points and "
                 "return_distance=False. Non-trivial: (B, Q, k) with at least one pair to report.")
     d = ctx.tlc_dir("geo")
     with open(os.path.join(d, "MCShuffle.cfg"), "w") as f:
@@ -251,6 +278,12 @@ def run(ctx):
     if len(cases) < 100:
         raise MachineryError("too few geo cases")
     pmap(ctx, replay_case, [(c, ctx.tier) for c in cases])
+    unused = [i for i in range(N_SPELLINGS) if not ctx.notes.get("spelling_%02d" % i)]
+    if unused:
+        raise MachineryError("radius spellings never used: %r" % unused)
+    for i in range(N_SPELLINGS):
+        ctx.notes.pop("spelling_%02d" % i, None)
+    ctx.notes["radius_spellings"] = "all %d spellings exercised: %s" % (N_SPELLINGS, ", ".join(map(str, radius_spellings(5.0))))
     if ctx.notes.get("shuffle_not_instrumented"):
         ctx.notes["shuffle_note"] = ("numpy.random.shuffle was not called by GeoIndex in some constructions: permutations "
                                      "could not be forced there (results are still judged, they may not depend on it)")
